@@ -296,7 +296,8 @@ func (d *decorator) unique(label string) string {
 }
 
 func (d *decorator) pct(label string, p int) bool {
-	return rapid.IntRange(0, 99).Draw(d.t, label) < p
+	// a draw of 0 (what shrinking aims for) means "no"
+	return rapid.IntRange(0, 99).Draw(d.t, label) >= 100-p
 }
 
 func (d *decorator) fields(fs []shape.Field, underAlias bool) {
@@ -464,7 +465,7 @@ func genCase(t *rapid.T, random bool) Case {
 		if ol.path == single {
 			continue
 		}
-		if rapid.IntRange(0, 99).Draw(t, "fill") < pct {
+		if rapid.IntRange(0, 99).Draw(t, "fill") >= 100-pct {
 			c.Fill = append(c.Fill, FillEntry{Path: ol.path, Seed: rapid.Uint64Range(1, 1<<40).Draw(t, "seed")})
 		}
 	}
